@@ -13,6 +13,7 @@ import (
 	"sort"
 	"strings"
 	"sync"
+	"time"
 
 	"honnef.co/go/tools/go/ir"
 	"honnef.co/go/tools/go/ir/irutil"
@@ -245,10 +246,18 @@ func Child(dir, mode string, procs, builds int, patterns []string) {
 			bm |= ir.BuildSerially
 		}
 		prog, irpkgs := irutil.Packages(pkgs, bm)
+		t0 := time.Now()
 		var early []*ir.Function
 		var earlyMu sync.Mutex
 		check := func(own *ir.Package, roots []*ir.Function) {
 			inc, n := reachIncomplete(own, roots)
+			if os.Getenv("VERIF_C18_DEBUG") != "" {
+				who := "methodvalue"
+				if own != nil {
+					who = own.Pkg.Path()
+				}
+				fmt.Fprintf(os.Stderr, "check %s visited=%d incomplete=%d at=%s\n", who, n, len(inc), time.Since(t0).Round(100*time.Microsecond))
+			}
 			earlyMu.Lock()
 			early = append(early, inc...)
 			res.ReachChecks++
@@ -292,12 +301,22 @@ func Child(dir, mode string, procs, builds int, patterns []string) {
 				if p == nil {
 					continue
 				}
-				if i == 1 {
-					runtime.Gosched()
+				// staging (shapes the schedule only, never a verdict): the slow package gets a
+				// head start so that it has created the inner shared functions and is busy
+				// with its own when the others arrive; the last third arrives later still,
+				// when the first ones are done with their own functions and only wait
+				// (the delays grow with the build number: different windows in one child)
+				stall := time.Duration(0)
+				if i >= 1 {
+					stall = time.Duration(2+3*b) * time.Millisecond
+				}
+				if i >= 1+2*(len(order)-1)/3 {
+					stall = time.Duration(5+8*b) * time.Millisecond
 				}
 				wg.Add(1)
 				go func(p *ir.Package) {
 					defer wg.Done()
+					time.Sleep(stall)
 					p.Build()
 					// Build has returned: everything p's functions can reach that is p's own
 					// or shared must be complete now
@@ -309,6 +328,7 @@ func Child(dir, mode string, procs, builds int, patterns []string) {
 				wg.Add(1)
 				go func(g int) {
 					defer wg.Done()
+					time.Sleep(time.Duration(4+6*g) * time.Millisecond)
 					for i, p := range irpkgs {
 						if p == nil || i%4 != g {
 							continue
